@@ -91,6 +91,8 @@ def gen_case0(rng, i):
             d = {'start': [d['start'][0]], 'values': [d['values'][0]], 'mode': mode}
         elif mode != 'noend':
             d['end'] = [gen.fmt(t) for t in en]
+        if tz and mode != 'noend' and rng.random() < 0.3:
+            d['stamp_tz'] = rng.choice(['UTC', 'US/Eastern', 'Asia/Tokyo'])      # same instants, stamped in another zone than the grid's
         sp['ivals'].append(d)
     return sp
 
@@ -194,7 +196,7 @@ def run(ctx):
                 if want != r['values']:
                     ctx.violation('impl-violation', {'spec': sp, 'ival': p, 'observed': r['values'], 'expected': want}, trigger={'what': 'interval value'})
             impl = 'None' if r['status'] != 'ok' else '(Some %s)' % C.lst(['None' if v is None else '(Some %s)' % C.q(v) for v in r['values']])
-            exprs.append('[c19_ival_case %s %s %s]' % (C.lst([C.z(t) for t in tp]), M.param_term({k: v for k, v in p.items() if k != 'mode'}, sp, g), impl))
+            exprs.append('[c19_ival_case %s %s %s]' % (C.lst([C.z(t) for t in tp]), M.param_term({k: v for k, v in p.items() if k not in ('mode', 'stamp_tz')}, sp, g), impl))
             owners.append((sp, 'values_to_grid', p))
     vals = C.run_coq_exprs('C19', IMPORTS, exprs, chunk=25)
     for (sp, what, detail), v in zip(owners, vals):
